@@ -10,7 +10,11 @@ LEVEL = "exploration"
 RULE = ("Hypothesis-generated (objective incl. many-equal-values families, N=1..5, box, r, eps, itersLimit<=300, "
         "refineSolution in {False,True}) driven by mixed DoGlobalIteration(k)/Solve calls with a recording "
         "listener; at every observation point (inside OnEndIteration, inside OnMethodStop, after each call, on the "
-        "returned Solution and on GetResults()) the reported best must be an evaluated point with its logged and "
+        "returned Solution and on GetResults(); with or without a listener, a kept Solution object re-read after every "
+        "later call, a second solver (possibly on the same SolverParameters object, possibly the next problem of a "
+        "series) stepped in between, DoLocalRefinement in the middle of the run, startPoint set in a fifth of the cases, "
+        "a shipped static painter attached in one case of sixteen - its objective probes are dropped from the log) "
+        "the reported best must be an evaluated point with its logged and "
         "re-evaluated value and no evaluated value may be smaller. Non-trivial: the best value changed at least "
         "twice after the first trial. Distinct = distinct case digest.")
 ASSUMPTIONS = [
